@@ -137,6 +137,19 @@ def gen_cases(ctx, n_ds, n_tf):
                       eager=strict,
                       hist=rng.choice(["normal", "normal", "int"]),
                       scales=scales, companions=comps, seed=rng.next()))
+  # frequent-directions statistics (sketch factors for blocks larger than rank + 2, Gram matrices for
+  # the others): which kind a block gets must depend on that block alone.  Ragged layouts around the
+  # rank + 2 boundary; only the statistics are compared here (block of the tensor vs the same block as a
+  # separate leaf, eager = same primitive sequence): the low-rank roots are discontinuous in the data at
+  # the cut and are C09 / C10's subject (added after a seeded change was missed)
+  for i, (shape, b, r) in enumerate([([12, 8], 8, 2), ([11, 8], 8, 2), ([10, 4], 8, 2), ([16, 8], 8, 2),
+                                     ([13, 6], 8, 3), ([9, 9], 6, 1), ([7, 5], 5, 1)]):
+    cfg = dict(block=b, lr=0.125, beta1=0.0, beta2=rng.choice([1.0, 0.9]), meps=1e-6, wd=0.0, start=0,
+               pfreq=1, sfreq=1, graft="none", nesterov=False, moving_avg=False, rel_eps=True, eigh=False,
+               fd=r)
+    nb = n_blocks_ds(shape, b)
+    cases.append(dict(kind="ds", cfg=cfg, shape=shape, T=3, eager=True, hist="normal",
+                      scales=[0] * nb, companions=[[[3], 0]], seed=rng.next(), stats_only=True))
   tf_shapes = {2: [[4], [4, 2], [2, 4], [4, 4], [6, 2], [8, 2], [2, 6]],
                3: [[6], [6, 3], [3, 6], [6, 6], [6, 2], [2, 9], [9, 3]],
                4: [[8], [8, 4], [4, 8], [8, 3], [3, 8, 2], [8, 8], [12, 2]]}
@@ -200,6 +213,26 @@ def evaluate(ctx, results, tag):
   terms, idx = [], []
   for i, r in enumerate(results):
     if "exc" in r:
+      continue
+    if r["case"].get("stats_only"):
+      bad = []
+      for t, st in enumerate(r["steps"]):
+        flatA = st["A"]["stats"]
+        flatB = [m for b in st["B"] for m in b["stats"]]
+        if len(flatA) != len(flatB):
+          bad.append("step %d: %d statistics for the blocked tensor, %d for its blocks" % (t, len(flatA), len(flatB)))
+          continue
+        for j, (x, y) in enumerate(zip(flatA, flatB)):
+          x, y = __import__("numpy").array(x), __import__("numpy").array(y)
+          if x.shape != y.shape:
+            bad.append("step %d statistic %d: shape %s in the blocked tensor, %s for the block alone" % (
+                t, j, list(x.shape), list(y.shape)))
+          elif abs(x - y).max() > 1e-5 * max(abs(x).max(), abs(y).max(), 1e-30):
+            bad.append("step %d statistic %d differs from the block optimised alone (max diff %.3e)" % (
+                t, j, abs(x - y).max()))
+      r["code"], r["nonbitwise"] = 0, [0, 0, 0]
+      if bad:
+        r["exc"] = "frequent-directions statistics of a block depend on its siblings: " + "; ".join(bad[:4])
       continue
     if r["case"]["kind"] == "ds":
       # the history is checked up to (excluding) the first step with an ambiguous acceptance gate
